@@ -10,7 +10,7 @@ from hypothesis import strategies as st
 
 from .. import history as H
 from ..common import cedge, dc, dedupe, permuted
-from ..common import nodes_with_metadata
+from ..common import nodes_with_metadata, clone_label
 from ..engine import Clause, Violation, require
 
 ASSUMPTIONS = [
@@ -234,7 +234,8 @@ def observe(h, U, probes, real):
         o["max_size"] = h.max_size()
         o["max_order"] = h.max_order()
     inc, nei, deg, mdeg, iso, nmeta = ({} for _ in range(6))
-    for n in nodes:
+    for n0 in nodes:
+        n = clone_label(n0)   # equal label, other object: found by equality
         inc[n] = {None: Counter(crec(e) for e in h.get_incident_edges(n))}
         nei[n] = {None: _setof(h.get_neighbors(n))}
         deg[n] = {None: h.degree(n)}
@@ -372,6 +373,9 @@ class TemporalAdapter(H.Adapter):
 
     def r_set_edge_metadata(self, h, r, meta):
         h.set_edge_metadata(tuple(r["e"]), r["t"], meta)
+
+    def r_get_edge_metadata(self, h, r):
+        return h.get_edge_metadata(tuple(r["e"]), r["t"])
 
     def r_set_attr_edge(self, h, r, f, v):
         h.set_attr_to_edge_metadata(tuple(r["e"]), r["t"], f, v)
